@@ -6,51 +6,101 @@ set_option linter.unusedVariables false
 namespace RV.Sync
 variable {F : Type}
 
-theorem dtOk_steps (stepF syncF : F → F) (isS : F → Bool) (n : Nat) (rest : List DtOp)
-    (h : ∀ g, dtOk stepF syncF isS rest g = true) (f : F) :
-    dtOk stepF syncF isS (List.replicate n (DtOp.api .step) ++ rest) f = true := by
+theorem dtOk_steps (stepF syncF forceF : F → F) (isS : F → Bool) (n : Nat) (rest : List DtOp)
+    (h : ∀ g, dtOk stepF syncF forceF isS rest g = true) (f : F) :
+    dtOk stepF syncF forceF isS (List.replicate n (DtOp.api .step) ++ rest) f = true := by
   induction n generalizing f with
   | zero => exact h f
   | succ n ih => simp only [List.replicate_succ, List.cons_append, dtOk]; exact ih _
 
-theorem dtOk_tail (stepF syncF : F → F) (isS : F → Bool) (hs : ∀ f, isS (syncF f) = true)
-    (k : Nat) (exact : Bool) (g : F) :
-    dtOk stepF syncF isS (lastStepBlock k ++ [.api .synchronize] ++
-      (if exact then [DtOp.restoreDt] else [])) g = true := by
+/-- the flag transition of the synchronize that precedes an assignment to `dt` -/
+def preF (syncF forceF : F → F) (force : Bool) : F → F := if force then forceF else syncF
+
+theorem dtOk_syncBefore (stepF syncF forceF : F → F) (isS : F → Bool) (force : Bool) (r : List DtOp) (f : F) :
+    dtOk stepF syncF forceF isS (syncBeforeDt force :: r) f =
+      dtOk stepF syncF forceF isS r (preF syncF forceF force f) := by
+  cases force <;> rfl
+
+theorem dtOk_final (stepF syncF forceF : F → F) (isS : F → Bool) (force : Bool)
+    (hs : force = false → ∀ f, isS (syncF f) = true) (hp : ∀ f, isS (preF syncF forceF force f) = true)
+    (exact rc : Bool) (g : F) :
+    dtOk stepF syncF forceF isS (finalBlock force exact rc) g = true := by
+  unfold finalBlock
+  cases force
+  · cases exact <;> cases rc <;> simp [dtOk, hs rfl]
+  · have hf : ∀ f, isS (forceF f) = true := hp
+    cases exact <;> cases rc <;> simp [dtOk, hf]
+
+theorem dtOk_tail (stepF syncF forceF : F → F) (isS : F → Bool) (force : Bool)
+    (hs : force = false → ∀ f, isS (syncF f) = true) (hp : ∀ f, isS (preF syncF forceF force f) = true)
+    (k : Nat) (exact rc : Bool) (g : F) :
+    dtOk stepF syncF forceF isS (lastStepBlock force k ++ finalBlock force exact rc) g = true := by
   induction k generalizing g with
-  | zero => cases exact <;> simp [lastStepBlock, dtOk, hs]
+  | zero => exact dtOk_final stepF syncF forceF isS force hs hp exact rc g
   | succ k ih =>
-    simp only [lastStepBlock, List.cons_append, List.append_assoc, List.nil_append, dtOk, hs,
-      Bool.true_and]
-    have := ih (stepF (syncF g))
-    simpa [List.append_assoc] using this
+    simp only [lastStepBlock, List.cons_append, List.append_assoc, List.nil_append, dtOk_syncBefore,
+      dtOk, hp, Bool.true_and]
+    exact ih _
 
 /-- every assignment to `dt` made by `integrate` happens in a synchronised state, provided the
-    direction is not reversed on an unsynchronised simulation — or the entry synchronises first -/
-theorem dtOk_plan (stepF syncF : F → F) (isS : F → Bool) (hs : ∀ f, isS (syncF f) = true)
-    (n k : Nat) (exact reverse syncFirst : Bool) (f : F)
+    synchronize that precedes it really synchronises (no keep_unsynchronized, or the forced
+    variant) and the direction is not reversed on an unsynchronised simulation — or the entry
+    synchronises first -/
+theorem dtOk_plan (stepF syncF forceF : F → F) (isS : F → Bool) (force : Bool)
+    (hs : force = false → ∀ f, isS (syncF f) = true) (hp : ∀ f, isS (preF syncF forceF force f) = true)
+    (n k : Nat) (exact reverse syncFirst rc : Bool) (f : F)
     (h : reverse = true → syncFirst = true ∨ isS f = true) :
-    dtOk stepF syncF isS (integratePlan n k exact reverse syncFirst) f = true := by
+    dtOk stepF syncF forceF isS (integratePlan n k exact reverse syncFirst force rc) f = true := by
   unfold integratePlan
-  have ht : ∀ g, dtOk stepF syncF isS (List.replicate n (DtOp.api .step) ++ (lastStepBlock k ++
-      (DtOp.api .synchronize :: (if exact then [DtOp.restoreDt] else [])))) g = true := by
+  have ht : ∀ g, dtOk stepF syncF forceF isS (List.replicate n (DtOp.api .step) ++ (lastStepBlock force k ++
+      finalBlock force exact rc)) g = true := by
     intro g
-    have := dtOk_steps stepF syncF isS n _ (dtOk_tail stepF syncF isS hs k exact) g
-    simpa [List.append_assoc] using this
+    exact dtOk_steps stepF syncF forceF isS n _ (dtOk_tail stepF syncF forceF isS force hs hp k exact rc) g
   cases reverse
   · simp only [Bool.false_eq_true, if_false, List.cons_append, List.nil_append, List.append_assoc, dtOk]
     exact ht f
   · rcases h rfl with h1 | h1
     · subst h1
-      simp only [if_true, List.cons_append, List.nil_append, List.append_assoc, dtOk, hs, Bool.true_and]
-      exact ht (syncF f)
+      simp only [if_true, List.cons_append, List.nil_append, List.append_assoc, dtOk_syncBefore, dtOk, hp,
+        Bool.true_and]
+      exact ht _
     · cases syncFirst
       · simp only [if_true, if_false, Bool.false_eq_true, List.cons_append, List.nil_append,
           List.append_assoc, dtOk]
         rw [h1, Bool.true_and]
         exact ht f
-      · simp only [if_true, List.cons_append, List.nil_append, List.append_assoc, dtOk, hs, Bool.true_and]
-        exact ht (syncF f)
+      · simp only [if_true, List.cons_append, List.nil_append, List.append_assoc, dtOk_syncBefore, dtOk, hp,
+          Bool.true_and]
+        exact ht _
+
+/-- steps in unsafe mode always end unsynchronised … -/
+theorem stepOps_unsafe_flags (c : Config) (hs : c.safe = false) (f : Flags) :
+    (stepOps c f).2 = ⟨false, false, true⟩ := by
+  rw [← stepOps_initF, stepOps_unsafe c hs _ (initF_allocated f)]
+
+/-- … and with keep_unsynchronized `synchronize` leaves them so: the source as found then assigns
+    the shortened last `dt` while a half step is pending -/
+theorem dtOk_keep_false (c : Config) (hk : c.keep = true) (hs : c.safe = false) (n k : Nat)
+    (exact syncFirst rc : Bool) (f : Flags) :
+    dtOk (fun f => (stepOps c f).2) (fun f => (syncOps c f).2) (fun f => (syncOps c f).2) Flags.isSync
+      (integratePlan (n + 1) (k + 1) exact false syncFirst false rc) f = false := by
+  have hstep : ∀ m (g : Flags) (rest : List DtOp),
+      dtOk (fun f => (stepOps c f).2) (fun f => (syncOps c f).2) (fun f => (syncOps c f).2) Flags.isSync
+        (List.replicate (m + 1) (DtOp.api .step) ++ rest) g =
+      dtOk (fun f => (stepOps c f).2) (fun f => (syncOps c f).2) (fun f => (syncOps c f).2) Flags.isSync
+        rest ⟨false, false, true⟩ := by
+    intro m
+    induction m with
+    | zero => intro g rest; simp [List.replicate, dtOk, stepOps_unsafe_flags c hs]
+    | succ m ih =>
+      intro g rest
+      rw [List.replicate_succ, List.cons_append]
+      simp only [dtOk]
+      exact ih _ rest
+  unfold integratePlan
+  simp only [Bool.false_eq_true, if_false, List.nil_append, List.cons_append, List.append_assoc, dtOk]
+  rw [hstep]
+  simp [lastStepBlock, syncBeforeDt, dtOk, syncOps_keep_flags c hk, initF]
 
 theorem syncOps_nokeep_isSync (c : Config) (hk : c.keep = false) (f : Flags) :
     (syncOps c f).2.isSync = true := by
